@@ -121,12 +121,12 @@ structure MemoOK (d : DFA σ α) (m : Memo σ) : Prop where
 
 /-- The coherence invariant of an instance: every populated cache level is the table of that
 level, every memoised value is the value computed from the definition. -/
-structure Inv (d : DFA σ α) (key : α → Int) (s : Inst σ α) : Prop where
+structure CacheInv (d : DFA σ α) (key : α → Int) (s : Inst σ α) : Prop where
   counts : d.CoherentCount s.counts
   words : d.CoherentWord key s.words
   memo : d.MemoOK s.memo
 
-theorem inv_fresh (d : DFA σ α) (key : α → Int) : d.Inv key (Inst.fresh : Inst σ α) := by
+theorem cacheInv_fresh (d : DFA σ α) (key : α → Int) : d.CacheInv key (Inst.fresh : Inst σ α) := by
   refine ⟨?_, ?_, ?_⟩
   · simp [Inst.fresh, CoherentCount]
   · simp [Inst.fresh, CoherentWord]
@@ -134,14 +134,14 @@ theorem inv_fresh (d : DFA σ α) (key : α → Int) : d.Inv key (Inst.fresh : I
 
 /-- What every cached call guarantees: invariant kept, generators untouched, value = the
 stateless one. -/
-structure Spec {β : Type} (d : DFA σ α) (key : α → Int) (s : Inst σ α) (r : Inst σ α × β) (v : β) :
+structure CallSpec {β : Type} (d : DFA σ α) (key : α → Int) (s : Inst σ α) (r : Inst σ α × β) (v : β) :
     Prop where
-  inv : d.Inv key r.1
+  inv : d.CacheInv key r.1
   gens : r.1.gens = s.gens
   val : r.2 = v
 
-theorem cDigraph_spec {d : DFA σ α} {key : α → Int} {s : Inst σ α} (h : d.Inv key s) :
-    Spec d key s (d.cDigraph s) d.digraph := by
+theorem cDigraph_spec {d : DFA σ α} {key : α → Int} {s : Inst σ α} (h : d.CacheInv key s) :
+    CallSpec d key s (d.cDigraph s) d.digraph := by
   unfold cDigraph
   cases hg : s.memo.digraph with
   | some g => exact ⟨h, rfl, h.memo.digraph g hg⟩
@@ -149,8 +149,8 @@ theorem cDigraph_spec {d : DFA σ α} {key : α → Int} {s : Inst σ α} (h : d
     refine ⟨⟨h.counts, h.words, ?_⟩, rfl, rfl⟩
     exact { h.memo with digraph := by intro g hg'; simp at hg'; exact hg'.symm }
 
-theorem cIsEmpty_spec {d : DFA σ α} {key : α → Int} {s : Inst σ α} (h : d.Inv key s) :
-    Spec d key s (d.cIsEmpty s) d.isEmpty := by
+theorem cIsEmpty_spec {d : DFA σ α} {key : α → Int} {s : Inst σ α} (h : d.CacheInv key s) :
+    CallSpec d key s (d.cIsEmpty s) d.isEmpty := by
   unfold cIsEmpty
   cases hg : s.memo.isempty with
   | some b => exact ⟨h, rfl, h.memo.isempty b hg⟩
@@ -158,8 +158,8 @@ theorem cIsEmpty_spec {d : DFA σ α} {key : α → Int} {s : Inst σ α} (h : d
     refine ⟨⟨h.counts, h.words, ?_⟩, rfl, rfl⟩
     exact { h.memo with isempty := by intro b hb; simp at hb; exact hb.symm }
 
-theorem cMinLen_spec {d : DFA σ α} {key : α → Int} {s : Inst σ α} (h : d.Inv key s) :
-    Spec d key s (d.cMinLen s) d.minimumWordLength := by
+theorem cMinLen_spec {d : DFA σ α} {key : α → Int} {s : Inst σ α} (h : d.CacheInv key s) :
+    CallSpec d key s (d.cMinLen s) d.minimumWordLength := by
   unfold cMinLen
   cases hg : s.memo.minLen with
   | some m => exact ⟨h, rfl, (h.memo.minLen m hg).symm⟩
@@ -170,8 +170,8 @@ theorem cMinLen_spec {d : DFA σ α} {key : α → Int} {s : Inst σ α} (h : d.
       refine ⟨⟨h.counts, h.words, ?_⟩, rfl, rfl⟩
       exact { h.memo with minLen := by intro n hn; simp at hn; rw [hm, hn] }
 
-theorem cMaxLen_spec {d : DFA σ α} {key : α → Int} {s : Inst σ α} (h : d.Inv key s) :
-    Spec d key s (d.cMaxLen s) d.maximumWordLength := by
+theorem cMaxLen_spec {d : DFA σ α} {key : α → Int} {s : Inst σ α} (h : d.CacheInv key s) :
+    CallSpec d key s (d.cMaxLen s) d.maximumWordLength := by
   unfold cMaxLen
   cases hg : s.memo.maxLen with
   | some m => exact ⟨h, rfl, (h.memo.maxLen m hg).symm⟩
@@ -192,8 +192,8 @@ theorem cMaxLen_spec {d : DFA σ α} {key : α → Int} {s : Inst σ α} (h : d.
           maxLen := by intro n hn; simp at hn; simp [maximumWordLength, he, hn] }
       · simp [maximumWordLength, he]
 
-theorem cIsFinite_spec {d : DFA σ α} {key : α → Int} {s : Inst σ α} (h : d.Inv key s) :
-    Spec d key s (d.cIsFinite s) d.isFinite := by
+theorem cIsFinite_spec {d : DFA σ α} {key : α → Int} {s : Inst σ α} (h : d.CacheInv key s) :
+    CallSpec d key s (d.cIsFinite s) d.isFinite := by
   unfold cIsFinite
   cases hg : s.memo.isfinite with
   | some b => exact ⟨h, rfl, (h.memo.isfinite b hg).symm⟩
@@ -208,15 +208,15 @@ theorem cIsFinite_spec {d : DFA σ α} {key : α → Int} {s : Inst σ α} (h : 
       refine ⟨⟨h1.inv.counts, h1.inv.words, ?_⟩, h1.gens, by rw [hf, hc]⟩
       exact { h1.inv.memo with isfinite := by intro b' hb; simp at hb; rw [hf, hc, hb] }
 
-theorem cCountWords_spec {d : DFA σ α} {key : α → Int} {s : Inst σ α} (h : d.Inv key s) (k : Nat) :
-    Spec d key s (d.cCountWords s k) (d.countWordsOfLength k) := by
+theorem cCountWords_spec {d : DFA σ α} {key : α → Int} {s : Inst σ α} (h : d.CacheInv key s) (k : Nat) :
+    CallSpec d key s (d.cCountWords s k) (d.countWordsOfLength k) := by
   unfold cCountWords
   refine ⟨⟨coherent_populateCount h.counts k, h.words, h.memo⟩, rfl, ?_⟩
   exact cacheCount_populateCount h.counts k k (Nat.le_refl k) d.init
 
 theorem cSumCounts_spec {d : DFA σ α} {key : α → Int} (js : List Nat) :
-    ∀ {s : Inst σ α} (acc : Nat), d.Inv key s →
-      Spec d key s (d.cSumCounts js s acc) (acc + (js.map d.countWordsOfLength).sum) := by
+    ∀ {s : Inst σ α} (acc : Nat), d.CacheInv key s →
+      CallSpec d key s (d.cSumCounts js s acc) (acc + (js.map d.countWordsOfLength).sum) := by
   induction js with
   | nil => intro s acc h; exact ⟨h, rfl, by simp [cSumCounts]⟩
   | cons j js ih =>
@@ -228,8 +228,8 @@ theorem cSumCounts_spec {d : DFA σ α} {key : α → Int} (js : List Nat) :
     rw [h2.val, h1.val]
     simp [Nat.add_assoc]
 
-theorem cCardinality_spec {d : DFA σ α} {key : α → Int} {s : Inst σ α} (h : d.Inv key s) :
-    Spec d key s (d.cCardinality s) d.cardinality := by
+theorem cCardinality_spec {d : DFA σ α} {key : α → Int} {s : Inst σ α} (h : d.CacheInv key s) :
+    CallSpec d key s (d.cCardinality s) d.cardinality := by
   unfold cCardinality
   cases hg : s.memo.cardinality with
   | some n => exact ⟨h, rfl, (h.memo.cardinality n hg).symm⟩
@@ -275,8 +275,8 @@ theorem cCardinality_spec {d : DFA σ α} {key : α → Int} {s : Inst σ α} (h
 /-! ### generators -/
 
 theorem cIterAdvance_spec {d : DFA σ α} {key : α → Int} (fuel : Nat) :
-    ∀ {s : Inst σ α} (i : Nat) (limit : Option Nat) (rest : List (List α)), d.Inv key s →
-      d.Inv key (d.cIterAdvance key fuel s i limit rest).1 ∧
+    ∀ {s : Inst σ α} (i : Nat) (limit : Option Nat) (rest : List (List α)), d.CacheInv key s →
+      d.CacheInv key (d.cIterAdvance key fuel s i limit rest).1 ∧
       (d.cIterAdvance key fuel s i limit rest).1.gens = s.gens ∧
       (d.cIterAdvance key fuel s i limit rest).2 = d.pIterAdvance key fuel i limit rest := by
   induction fuel with
@@ -295,21 +295,21 @@ theorem cIterAdvance_spec {d : DFA σ α} {key : α → Int} (fuel : Nat) :
       | false => exact ⟨h, rfl, rfl⟩
       | true =>
         simp only
-        have hinv : d.Inv key { s with words := d.populateWord key s.words i } :=
+        have hinv : d.CacheInv key { s with words := d.populateWord key s.words i } :=
           ⟨h.counts, coherent_populateWord h.words i, h.memo⟩
         rw [cacheWords_populateWord h.words]
         exact ih (i + 1) limit (d.wordsOfLength key i) hinv
 
-theorem cGenNext_spec {d : DFA σ α} {key : α → Int} {s : Inst σ α} (h : d.Inv key s) (fuel : Nat)
+theorem cGenNext_spec {d : DFA σ α} {key : α → Int} {s : Inst σ α} (h : d.CacheInv key s) (fuel : Nat)
     (g : Gen α) :
-    d.Inv key (d.cGenNext key s fuel g).1 ∧ (d.cGenNext key s fuel g).1.gens = s.gens ∧
+    d.CacheInv key (d.cGenNext key s fuel g).1 ∧ (d.cGenNext key s fuel g).1.gens = s.gens ∧
       (d.cGenNext key s fuel g).2 = d.pGenNext key fuel g := by
   cases g with
   | wordsNew k =>
     unfold cGenNext pGenNext
     simp only
     rw [cacheWords_populateWord h.words]
-    have hinv : d.Inv key { s with words := d.populateWord key s.words k } :=
+    have hinv : d.CacheInv key { s with words := d.populateWord key s.words k } :=
       ⟨h.counts, coherent_populateWord h.words k, h.memo⟩
     cases d.wordsOfLength key k with
     | nil => exact ⟨hinv, rfl, rfl⟩
@@ -343,9 +343,9 @@ theorem cGenNext_spec {d : DFA σ α} {key : α → Int} {s : Inst σ α} (h : d
   | iterRun i limit rest => exact cIterAdvance_spec fuel i limit rest h
   | done => exact ⟨h, rfl, rfl⟩
 
-theorem cSuccStart_spec {d : DFA σ α} {key : α → Int} {s : Inst σ α} (h : d.Inv key s)
+theorem cSuccStart_spec {d : DFA σ α} {key : α → Int} {s : Inst σ α} (h : d.CacheInv key s)
     (reverse : Bool) :
-    d.Inv key (d.cSuccStart s reverse).1 ∧ (d.cSuccStart s reverse).1.gens = s.gens ∧
+    d.CacheInv key (d.cSuccStart s reverse).1 ∧ (d.cSuccStart s reverse).1.gens = s.gens ∧
       (d.cSuccStart s reverse).2 = (d.finiteGuard reverse, d.digraph) := by
   cases reverse with
   | false =>
@@ -399,8 +399,8 @@ theorem randomWordCore_congr (d : DFA σ α) {c1 c2 : Nat → σ → Nat} (k : N
 /-- Simulation step: from a coherent instance every public call keeps the instance coherent
 and returns exactly what the stateless reference returns (answer and generator positions). -/
 theorem step_sim {d : DFA σ α} {key : α → Int} (ext : Nat → Nat) {s : Inst σ α}
-    (h : d.Inv key s) (q : Query α) :
-    d.Inv key (d.step key ext s q).1 ∧
+    (h : d.CacheInv key s) (q : Query α) :
+    d.CacheInv key (d.step key ext s q).1 ∧
       d.stepPure key ext s.gens q = ((d.step key ext s q).1.gens, (d.step key ext s q).2) := by
   cases q with
   | accepts w => exact ⟨h, rfl⟩
